@@ -14,7 +14,16 @@ try:
         print("MUTANT DOES NOT BUILD")
     else:
         for i in ids.split(","):
-            r = subprocess.run(["/verif/check", i, "quick"], stdout=subprocess.PIPE, text=True)
+            import signal
+            pr = subprocess.Popen(["/verif/check", i, "quick"], stdout=subprocess.PIPE, text=True, start_new_session=True)
+            try:
+                so, _ = pr.communicate(timeout=int(os.environ.get("MUT_TIMEOUT", "420")))
+            except subprocess.TimeoutExpired:
+                os.killpg(pr.pid, signal.SIGKILL)
+                so, _ = pr.communicate()
+                print("== %s TIMEOUT (killed)" % i)
+            class R: pass
+            r = R(); r.returncode = pr.returncode; r.stdout = so or ""
             out = r.stdout.strip().splitlines()
             v = [l for l in out if l.startswith("VIOLATION") or l.startswith("  [")]
             print("== %s exit=%d  %s" % (i, r.returncode, "CAUGHT" if r.returncode == 1 else "MISSED"))
